@@ -28,31 +28,31 @@ var Root = func() string {
 
 // Env describes one invocation of a check.
 type Env struct {
-	ID      string
-	Tier    string // quick | thorough
-	Seed    int64
-	Out     string // scratch dir (removed on success)
-	Start   time.Time
-	Replay  string // non-empty: replay mode
-	mu      sync.Mutex
-	mism    []Mismatch
-	notes   []string
-	Cov     Coverage
-	Assume  []string
+	ID       string
+	Tier     string // quick | thorough
+	Seed     int64
+	Out      string // scratch dir (removed on success)
+	Start    time.Time
+	Replay   string // non-empty: replay mode
+	mu       sync.Mutex
+	mism     []Mismatch
+	notes    []string
+	Cov      Coverage
+	Assume   []string
 	infraErr []string
 }
 
 type Coverage struct {
-	States       int64
-	Transitions  int64
-	Traces       int64 // behaviours replayed into / traces recorded from the implementation and judged
-	Evaluations  int64
-	Distinct     map[string]struct{}
-	Samples      []any
-	CheckerCmds  []string
-	Exhaustive   bool
-	Rule         string
-	Sub          []map[string]any // per sub-run details
+	States      int64
+	Transitions int64
+	Traces      int64 // behaviours replayed into / traces recorded from the implementation and judged
+	Evaluations int64
+	Distinct    map[string]struct{}
+	Samples     []any
+	CheckerCmds []string
+	Exhaustive  bool
+	Rule        string
+	Sub         []map[string]any // per sub-run details
 }
 
 func (e *Env) Quick() bool { return e.Tier != "thorough" }
@@ -106,7 +106,7 @@ func (e *Env) Distinct(key string) {
 	e.Cov.Distinct[key] = struct{}{}
 }
 
-func (e *Env) AddEval(n int64) { e.mu.Lock(); e.Cov.Evaluations += n; e.mu.Unlock() }
+func (e *Env) AddEval(n int64)   { e.mu.Lock(); e.Cov.Evaluations += n; e.mu.Unlock() }
 func (e *Env) AddTraces(n int64) { e.mu.Lock(); e.Cov.Traces += n; e.mu.Unlock() }
 
 func (e *Env) Sample(s any) {
@@ -134,22 +134,31 @@ type TLCRun struct {
 	Heap     string            // e.g. "8g"
 	Coverage bool
 	NoCount  bool // do not add states to evidence
+	Continue bool // -continue: report every invariant violation (per-line trace specs)
 	KeepOut  bool
 }
 
 type TLCResult struct {
 	Generated, Distinct int64
-	OK                  bool // "No error has been found" and exit 0
+	OK                  bool   // "No error has been found" and exit 0
 	Violated            string // name of violated invariant / property / postcondition / assumption
 	Deadlock            bool
-	Output              string // tail of stdout (bounded)
+	Output              string   // tail of stdout (bounded)
 	Printed             []string // unquoted PrintT strings (JSON vectors)
 	PrintedVals         []string // raw PrintT of non-string values
 	Wall                time.Duration
 	Dir                 string
 	Cmd                 string
 	ExitCode            int
+	Lines               []ViolatedLine // with Continue: every (invariant, value of l) reported
 }
+
+type ViolatedLine struct {
+	Inv string
+	L   int
+}
+
+var reLineVar = regexp.MustCompile(`^(?:/\\ )?l = (\d+)\s*$`)
 
 var reStates = regexp.MustCompile(`(\d+) states generated, (\d+) distinct states found`)
 var reInv = regexp.MustCompile(`Error: Invariant (\S+) is violated`)
@@ -211,6 +220,9 @@ func (e *Env) TLC(r TLCRun) (*TLCResult, error) {
 	if r.Coverage {
 		args = append(args, "-coverage", "1")
 	}
+	if r.Continue {
+		args = append(args, "-continue")
+	}
 	args = append(args, r.Module)
 	outPath := filepath.Join(dir, "tlc.out")
 	of, err := os.Create(outPath)
@@ -240,6 +252,7 @@ func (e *Env) TLC(r TLCRun) (*TLCResult, error) {
 	sc.Buffer(make([]byte, 1<<20), 1<<28)
 	var tail []string
 	noErr := false
+	curInv := ""
 	for sc.Scan() {
 		line := sc.Text()
 		if len(line) > 1 && line[0] == '"' && line[len(line)-1] == '"' {
@@ -258,6 +271,11 @@ func (e *Env) TLC(r TLCRun) (*TLCResult, error) {
 		}
 		if m := reInv.FindStringSubmatch(line); m != nil {
 			res.Violated = m[1]
+			curInv = m[1]
+		} else if m := reLineVar.FindStringSubmatch(line); m != nil && curInv != "" {
+			n, _ := strconv.Atoi(m[1])
+			res.Lines = append(res.Lines, ViolatedLine{curInv, n})
+			curInv = ""
 		} else if m := reProp.FindStringSubmatch(line); m != nil && res.Violated == "" {
 			res.Violated = m[0]
 			if strings.Contains(line, "Deadlock") {
@@ -448,8 +466,8 @@ func (e *Env) Finish() int {
 			b, _ := json.MarshalIndent(map[string]any{"property": e.ID, "signature": m.Sig, "detail": m.Detail, "replay": m.Replay}, "", " ")
 			os.WriteFile(p, b, 0o644)
 			fmt.Printf("VIOLATION property=%s replay=%s\n  signature: %s\n  detail: %s\n", e.ID, p, m.Sig, trunc(m.Detail, 1500))
-			if i >= 9 {
-				fmt.Printf("  ... %d further distinct violation signatures suppressed\n", len(viol)-10)
+			if i >= 39 {
+				fmt.Printf("  ... %d further distinct violation signatures suppressed\n", len(viol)-40)
 				break
 			}
 		}
